@@ -84,6 +84,8 @@ func C01(ctx *core.Ctx, r *core.Report) {
 	c01PhaseOrder(ctx, r)
 	c01RecursionGuard(ctx, r)
 	c01ConfigInheritance(ctx, r)
+	c01InsertsACopy(ctx, r)
+	impliedCasePerNode(ctx, r)
 	r.Count("instances:memo-key-complete(tables found)", memoKeyComplete(ctx, r, scopeFuncs(ctx, "meta", "resolver.go", "util.go", "find.go", "builder.go")))
 }
 
@@ -1034,4 +1036,105 @@ func c01RecursionGuardByIdentity(ctx *core.Ctx, r *core.Report) {
 			"the in-progress table is keyed by "+mt.Key().String()+", not by the grouping's identity: two groupings of the same name in different scopes are taken for a recursion")
 	})
 	r.Floor("recursion-guard-by-identity", n, 1)
+}
+
+// c01InsertsACopy: what the expansion of a template statement (an augment, a
+// uses) puts into the schema is a copy made for that place, never the node
+// the statement itself holds. The statement's own nodes are reachable from
+// every expansion of the enclosing grouping: adopting them makes all copies
+// share one set of objects (one Parent(), one compiled config).
+func c01InsertsACopy(ctx *core.Ctx, r *core.Report) {
+	inserters := map[string]bool{"addDataDefinition": true, "addCase": true, "addAction": true, "addNotification": true}
+	n := 0
+	for _, spec := range []string{"meta.resolver.expandAugment", "meta.resolver.expandUses", "meta.resolver.cloneDefs", "meta.resolver.fillInRecursiveDefs"} {
+		f := ctx.Lookup(spec)
+		if f == nil {
+			if spec == "meta.resolver.expandAugment" || spec == "meta.resolver.cloneDefs" {
+				r.Fatalf("anchor %s not found", spec)
+			}
+			continue
+		}
+		per := map[string]int{}
+		for _, c := range core.CallSites(f) {
+			name := ""
+			var arg ssa.Value
+			if m := core.IfaceMethod(c); m != nil && inserters[m.Name()] {
+				name, arg = m.Name(), c.Common().Args[0]
+			} else if cal := core.StaticCallee(c); cal != nil && inserters[cal.Name()] && core.FnPkgPath(cal) == core.Full("meta") {
+				name, arg = cal.Name(), c.Common().Args[len(c.Common().Args)-1]
+			}
+			if name == "" {
+				continue
+			}
+			n++
+			per[name]++
+			key := fmt.Sprintf("%s/%s#%d", core.FnName(f), name, per[name])
+			verdict, what := copyOrOriginal(arg, map[ssa.Value]bool{})
+			r.Ob("inserts-a-copy", key, ctx.Pos(c.Pos()), verdict == "copy",
+				"the expansion inserts "+what+" into the target instead of a copy made by clone(): every expansion of the enclosing grouping then holds the same node objects (one Parent(), one config) — the copies are neither complete nor independent")
+		}
+	}
+	r.Floor("inserts-a-copy", n, 4)
+}
+
+// copyOrOriginal classifies an inserted value: "copy" (result of clone() or a
+// Builder constructor, on every path), otherwise a description of what it is.
+func copyOrOriginal(v ssa.Value, seen map[ssa.Value]bool) (string, string) {
+	if seen[v] {
+		return "copy", ""
+	}
+	seen[v] = true
+	switch x := v.(type) {
+	case *ssa.TypeAssert:
+		return copyOrOriginal(x.X, seen)
+	case *ssa.ChangeInterface:
+		return copyOrOriginal(x.X, seen)
+	case *ssa.MakeInterface:
+		return copyOrOriginal(x.X, seen)
+	case *ssa.Extract:
+		return copyOrOriginal(x.Tuple, seen)
+	case *ssa.Phi:
+		for _, e := range x.Edges {
+			if k, w := copyOrOriginal(e, seen); k != "copy" {
+				return k, w
+			}
+		}
+		return "copy", ""
+	case *ssa.Call:
+		if m := core.IfaceMethod(x); m != nil && m.Name() == "clone" {
+			return "copy", ""
+		}
+		if cal := core.StaticCallee(x); cal != nil {
+			if cal.Name() == "clone" {
+				return "copy", ""
+			}
+			if rn := cal.Signature.Recv(); rn != nil && core.NamedOf(rn.Type()) != nil && core.NamedOf(rn.Type()).Obj().Name() == "Builder" {
+				return "copy", "" // freshly built (rule builder-returns-fresh of C06)
+			}
+		}
+		return "other", "the result of " + core.CalleeName(x)
+	case *ssa.UnOp:
+		if x.Op == token.MUL {
+			if _, ok := x.X.(*ssa.IndexAddr); ok {
+				return "original", "an element of the statement's own collection"
+			}
+			if al, ok := x.X.(*ssa.Alloc); ok {
+				// a local variable: every value stored
+				for _, ref := range *al.Referrers() {
+					if st, ok := ref.(*ssa.Store); ok && st.Addr == ssa.Value(al) {
+						if k, w := copyOrOriginal(st.Val, seen); k != "copy" {
+							return k, w
+						}
+					}
+				}
+				return "copy", ""
+			}
+		}
+		return "other", "a loaded value (" + x.String() + ")"
+	case *ssa.Lookup:
+		return "original", "an element of the statement's own collection"
+	case *ssa.Parameter:
+		return "param", "its own argument " + x.Name()
+	}
+	return "other", fmt.Sprintf("%T %s", v, v.Name())
 }
